@@ -42,6 +42,7 @@ os.environ.setdefault("AIU_TRACE_ANALYZER_VERIF", "1")
 
 
 ENOUGH = 60
+EARLY_STOP = [True]     # switched off while a verdict is being formed (shrinking, replay)
 
 
 class Enough(BaseException):
@@ -279,7 +280,7 @@ class Ctx:
         if len(self.violations) < 20:
             self.violations.append({"classifier": classifier, "desc": desc, "case": case})
         self.n_violations = getattr(self, "n_violations", 0) + 1
-        if self.n_violations >= ENOUGH and not getattr(self, "no_early_stop", False):
+        if self.n_violations >= ENOUGH and EARLY_STOP[0] and not getattr(self, "no_early_stop", False):
             # the verdict cannot change any more; a grossly changed implementation can make the remaining cases
             # arbitrarily expensive (state accumulating across runs), so stop exploring here
             raise Enough(f"{self.n_violations} oracle violations on the real code: exploration stopped early")
